@@ -148,6 +148,13 @@ def cases(rng, tier):
            for n in (7, 8, 9, 15, 16, 17, 22, 23, 24, 31, 32, 33, 63, 64, 65, 127, 128, 129, 255, 256, 300)]
     for buf in seeds + big:
         out.append(_rx(rng, buf))
+    # history: a bundle with very many blocks, then small bundles decoded by the same thread - what the decoder allocates for an input
+    # must be in proportion to THAT input, not to something remembered from the previous one
+    small = genb.ref_bundle(genb.rnd_bundle(rng, nblocks=1, crc_kind=0))[0]
+    huge = genb.rnd_bundle(rng, nblocks=0, crc_kind=0)
+    filler = b"".join(genb.ref_canonical(dict(type=192, num=10 + i, flags=0, crc=("N",), data=("UNK", b"")))[0] for i in range(200000 if tier != "quick" else 120000))
+    hb = b"\x9f" + genb.ref_primary(huge["p"])[0] + filler + genb.ref_canonical(huge["cs"][-1])[0] + b"\xff"
+    out.append("PAIR DEC %s || DECA %s || DECA %s || DECA %s" % (xhex(hb), xhex(small), xhex(small[:-1]), xhex(b"\x9f" + small[1:20])))
     seeds += big[:12]
     for _ in range(nm // 40):
         nb = rng.randrange(0, 4)
